@@ -202,12 +202,25 @@ class Builder:
         return c._map_mode(m)
 
     def tree(self, n, depth, log, *, max_children=3, steps=(0, 5), herald_p=0.6,
-             group_p=0.5, gate_p=0.15, direct_heralds_p=0.15):
+             group_p=0.5, gate_p=0.15, direct_heralds_p=0.15, plus_p=0.15):
         """A circuit with sub-circuits added at random legal placements."""
         rng = self.rng
         lw = self.lw
-        c = lw.Circuit(n)
-        log.append(["circuit", n])
+        if rng.random() < plus_p:
+            # the + operator between herald-free circuits of equal size
+            la, lb = [], []
+            a = self.leaf(n, int(rng.integers(0, 4)), la)
+            b = self.leaf(n, int(rng.integers(0, 4)), lb)
+            self.last = ["plus", la, lb]
+            c = a + b
+            log.append(["plus", la, lb])
+            if rng.random() < 0.3:
+                self.last = ["plus", "self", "self"]
+                c = c + c
+                log.append(["plus_self"])
+        else:
+            c = lw.Circuit(n)
+            log.append(["circuit", n])
         n_children = int(rng.integers(1, max_children + 1)) if depth > 0 else 0
         actions = ["prim"] * int(rng.integers(steps[0], steps[1] + 1)) + ["child"] * n_children
         rng.shuffle(actions)
